@@ -23,8 +23,18 @@ def run_cli(args, cwd: Path, timeout=240):
     return p.returncode, p.stdout + p.stderr
 
 
+import threading
+
+_API_LOCK = threading.Lock()   # sympy / gotranx are not thread-safe; only the CLI subprocesses run concurrently
+
+
 def api_code(text: str, name: str, cmd: str, o: dict):
     """what the documented API produces for the effective options"""
+    with _API_LOCK:
+        return _api_code(text, name, cmd, o)
+
+
+def _api_code(text: str, name: str, cmd: str, o: dict):
     from gotranx.codegen.c import Format as CF
     from gotranx.codegen.python import Format as PF
     from gotranx.cli import gotran2c, gotran2py
